@@ -77,7 +77,11 @@ def run(ctx):
                 t_m = b2f(rep['teststat'])
                 m_sb, m_b = phi(rep['clsb_arg']), phi(rep['clb_arg'])
                 rt = 1e-9
-                if not close(t_i, t_m, 1e-12, 1e-300): ctx.disagree('teststat', inp, t_m, t_i)
+                # the statistic is a difference of square roots (or of q and q_A): a last-place difference between the libraries' sqrt is an
+                # absolute error of a few ulps of the operands, not of the (cancelling) result
+                sq, sqa = math.sqrt(max(q, 0.0)), math.sqrt(max(qA, 0.0))
+                t_atol = 8 * 2.3e-16 * (sq + sqa + ((q + qA) / (2 * sqa) if sqa > 0 else 0.0)) * (1.0 if prec == '64b' else 5e8)
+                if not close(t_i, t_m, 1e-12 if prec == '64b' else 1e-5, max(t_atol, 1e-300)): ctx.disagree('teststat', inp, t_m, t_i)
                 for nm, a, bb in (('CLsb', p_i[0], m_sb), ('CLb', p_i[1], m_b), ('CLs', p_i[2], m_sb / m_b if m_b == m_b and m_b != 0 else float('nan'))):
                     if not close(a, bb, rt, 1e-300):
                         ctx.disagree(f'pvalue.{nm}', inp, bb, a)
